@@ -8,8 +8,11 @@ import (
 
 // runExtractor regenerates lean/GqlModel/Gen from /repo's current sources.
 func runExtractor() string {
-	if err := extract.RunFacts("/repo", filepath.Join(Root, "lean")); err != nil {
-		return err.Error()
+	lean := filepath.Join(Root, "lean")
+	for _, f := range []func(string, string) error{extract.RunFacts, extract.RunExtractErrSites, extract.RunExtractStores} {
+		if err := f("/repo", lean); err != nil {
+			return err.Error()
+		}
 	}
 	return ""
 }
